@@ -618,8 +618,11 @@ package process
 // ---- preliminary checks on processes and assumed names
 //@ macro namesReady(ns []Name, D Set[string], V Arr[string]types.LabelledType) bool = forall k int :: 0 <= k && k < len(ns) ==> ready(ns[k].Type, D, V)
 //@ macro procsReady(ps []*Process, D Set[string], V Arr[string]types.LabelledType) bool = forall k int :: 0 <= k && k < len(ps) ==> ready(ps[k].Type, D, V)
+// C05: declaring a process under several provider names duplicates it: allowed only at modes with contraction
+//@ macro multiOK(p *Process) bool = len(p.Providers) > 1 ==> allowsC(modeOf(p.Type))
 //@ contract preliminaryProcessesChecks
 //@   heapwf
+//@   ensures[C09] C05.multiProvider: result == nil ==> (forall k int :: 0 <= k && k < len(processes) ==> multiOK(processes[k]))
 //@   requires[C09] genvShape(globalEnv) && readyEnv(envD(globalEnv), envV(globalEnv)) && procsShape(processes) && namesShape(assumedFreeNames)
 //@   ensures[C09] C09.prelimProcs: result == nil ==> procsReady(processes, envD(globalEnv), envV(globalEnv)) && namesReady(assumedFreeNames, envD(globalEnv), envV(globalEnv))
 //@   ensures[C09] C09.prelimProcsKept: modesKept()
@@ -631,11 +634,14 @@ package process
 //@   loop[C09] 4 invariant allProcessNames != nil
 //@   loop[C09] 6 invariant modesKept() && allProcessNames != nil && remainingAssumedFreeNames != nil && namesReady(assumedFreeNames, envD(globalEnv), envV(globalEnv))
 //@   loop[C09] 6 invariant forall k int :: 0 <= k && k <= idx ==> ready(processes[k].Type, envD(globalEnv), envV(globalEnv))
+//@   loop[C09] 6 invariant forall k int :: 0 <= k && k <= idx ==> multiOK(processes[k])
 //@   loop[C09] 7 invariant modesKept() && allProcessNames != nil && remainingAssumedFreeNames != nil && namesReady(assumedFreeNames, envD(globalEnv), envV(globalEnv))
 //@   loop[C09] 7 invariant forall k int :: 0 <= k && k <= idx6 ==> ready(processes[k].Type, envD(globalEnv), envV(globalEnv))
+//@   loop[C09] 7 invariant forall k int :: 0 <= k && k <= idx6 ==> multiOK(processes[k])
 //@   loop[C09] 7 invariant len(typesToCheck) == 1 && typesToCheck[0] == processes[idx6+1].Type && typesToCheck[0] != nil && shapeOK(typesToCheck[0]) && labelledTypesEnv != nil && dom(labelledTypesEnv) == envD(globalEnv) && vals(labelledTypesEnv) == envV(globalEnv)
 //@   loop[C09] 8 invariant modesKept() && allProcessNames != nil && remainingAssumedFreeNames != nil && namesReady(assumedFreeNames, envD(globalEnv), envV(globalEnv))
 //@   loop[C09] 8 invariant forall k int :: 0 <= k && k <= idx6 + 1 ==> ready(processes[k].Type, envD(globalEnv), envV(globalEnv))
+//@   loop[C09] 8 invariant forall k int :: 0 <= k && k <= idx6 + 1 ==> multiOK(processes[k])
 
 // ---- typechecking the processes: the context of a process holds the types of its free names, taken from the
 // declarations of the other processes and from the assumed names
